@@ -6,9 +6,9 @@
    The theorems are unaffected; the plain extraction (ExtractCore.v) is what the other runner modes use. *)
 Require Extraction.
 Require Import ExtrOcamlBasic ExtrOcamlZBigInt.
-From TV Require Import Model.IndexSets Model.RuleLocal Model.Selection Model.Hier Model.LocalGrid Model.SequenceGrid.
+From TV Require Import Model.IndexSets Model.RuleLocal Model.Selection Model.Hier Model.LocalGrid Model.SequenceGrid Model.StdGrid.
 Extraction Language OCaml.
 Set Extraction Optimize.
 Extraction "../ocaml/gen/corefast.ml"
   getNode surpluses evalAt hier_cert parent_complete by_level reach Bc classic_candidates
-  seq_surpluses seq_interp.
+  seq_surpluses seq_interp std_grid.
